@@ -113,14 +113,17 @@ def scenario(ctx, j):
             s.foreign('clear', clear)
         elif third == 2:
             s.foreign('sched_abs f2', mk_sched(2, absolute=(kind != 'app')))
-        elif third == 3 and kind == 'tempo':
+        elif third in (3, 4) and kind == 'tempo':
             T2 = float(j.get('tempo2', 0.5))
 
             def change(world):
                 b0 = clock.beats
-                clock.tempo = T2
+                if third == 3:
+                    clock.tempo = T2
+                else:
+                    clock.etempo(T2)        # from a foreign thread logical == physical time: same change instant
                 tempo_changes.append((world.now, b0, T2))
-            s.foreign('tempo change', change)
+            s.foreign('tempo change' if third == 3 else 'etempo change', change)
         try:
             s.run(clock)
             # ---------------- obligations
@@ -296,6 +299,8 @@ def replay(rec):
         return fn
     fns = [mk(i) for i in range(3)]
     issued = {}
+    when_beats = {}
+    change = {}
     # order of foreign actions and whether they happened while the thread was waiting, from the trace
     labels = [x[1] for x in trace if x[0] == 'foreign']
     if not labels:
@@ -311,6 +316,8 @@ def replay(rec):
             if lb.startswith('sched f') or lb.startswith('sched_abs f'):
                 i = int(lb[-1])
                 issued[i] = now
+                if kind == 'tempo':
+                    when_beats[i] = clock.beats + d[i]
                 if lb.startswith('sched_abs') and kind != 'app':
                     base = clock.beats if kind == 'tempo' else clock.seconds
                     clock.sched_abs(base + d[i], fns[i])
@@ -320,7 +327,11 @@ def replay(rec):
                 clock.clear()
                 issued['clear'] = now
             elif lb == 'tempo change':
+                change['at'], change['beats'] = now, clock.beats
                 clock.tempo = T2
+            elif lb == 'etempo change':
+                change['at'], change['beats'] = now, clock.beats
+                clock.etempo(T2)
         if park:
             park['release']()
         time.sleep(max(d) + r + 1.0)
@@ -342,8 +353,15 @@ def replay(rec):
             if late:
                 msgs.append(f'f{i} awakened at {late[0]:.2f}s after clear() at {issued["clear"]:.2f}s')
             continue
-        if kind == 'tempo' and 'tempo change' in labels:
-            continue
+        tempo_changed = kind == 'tempo' and change
+        if kind == 'tempo':
+            due = at + d[i] / T
+        if tempo_changed:
+            # physical due time through the tempo map: the beat is kept, the change re-times what is still pending
+            if at >= change['at']:
+                due = at + d[i] / T2
+            elif due > change['at']:
+                due = change['at'] + max(0.0, when_beats[i] - change['beats']) / T2
         if len(ws) < 1:
             msgs.append(f'f{i} scheduled at {at:.2f}s with delay {d[i]:.2f}s was never awakened within the horizon')
             continue
@@ -353,8 +371,9 @@ def replay(rec):
             msgs.append(f'f{i} awakened at {ws[0]:.2f}s, before its time {due:.2f}s')
         if ws[0] > due + 0.2:
             msgs.append(f'f{i} due at {due:.2f}s was awakened at {ws[0]:.2f}s')
-        if len(ws) == 2 and kind != 'app' and abs(ws[1] - (due + r)) > 0.2:
-            msgs.append(f'f{i} re-scheduled by {r:.2f}s woke at {ws[1]:.2f}s, expected {due + r:.2f}s')
+        rs = r / T if kind == 'tempo' else r
+        if len(ws) == 2 and kind != 'app' and not tempo_changed and abs(ws[1] - (due + rs)) > 0.2:
+            msgs.append(f'f{i} re-scheduled by {rs:.2f}s woke at {ws[1]:.2f}s, expected {due + rs:.2f}s')
     return '; '.join(msgs) or None
 
 
@@ -402,11 +421,11 @@ def main(tier, seed):
                               clk.SystemClock.sched.__func__, clk.SystemClock.sched_abs.__func__,
                               clk.SystemClock.clear.__func__, clk.TempoClock._run, clk.TempoClock._sched_add,
                               clk.TempoClock.sched, clk.TempoClock.sched_abs, clk.TempoClock.clear,
-                              clk.TempoClock.__dict__['tempo'].fset, clk.AppClock._run.__func__,
+                              clk.TempoClock.__dict__['tempo'].fset, clk.TempoClock.etempo, clk.AppClock._run.__func__,
                               clk.AppClock.sched.__func__, clk.AppClock._tick.__func__, clk.Scheduler])
     jobs = []
     for kind in ('sys', 'tempo', 'app'):
-        thirds = [0, 1, 2] + ([3] if kind == 'tempo' else [])
+        thirds = [0, 1, 2] + ([3, 4] if kind == 'tempo' else [])
         for third in thirds:
             for resched in (0, 1):
                 for raises in ((0, 1, 2) if tier == 'quick' else (0, 1, 2, 3, 4)):
@@ -416,12 +435,13 @@ def main(tier, seed):
             for (ta, tb) in ([(1.0, 3.0), (0.5, 2.0)] if tier == 'quick' else
                              [(1.0, 3.0), (0.5, 2.0), (3.0, 1.0), (2.0, 2.0), (0.25, 4.0)]):
                 jobs.append(dict(clock=kind, third=3, resched=1, raises=0, jitter=False, tempo=ta, tempo2=tb))
+                jobs.append(dict(clock=kind, third=4, resched=1, raises=0, jitter=False, tempo=ta, tempo2=tb))
         if tier == 'thorough':
             jobs.append(dict(clock=kind, third=1, resched=1, raises=2, jitter=True, max_events=30))
     for r in run_jobs('vf.props.c08', 'job', jobs, 'rt'):
         chk.add('schedules', r)
     chk.require_notes('schedules', ['sys', 'tempo', 'app', 'raised', 'rescheduled', 'cleared', 'tempo-changed'])
-    chk.bounds = {'tasks': 3, 'foreign_actions': '2 sched + one of {none, clear, sched_abs, tempo change}',
+    chk.bounds = {'tasks': 3, 'foreign_actions': '2 sched + one of {none, clear, sched_abs, tempo change, etempo change}',
                   'reschedules': 1, 'events_per_path': 22, 'clocks': 'SystemClock, one TempoClock (tempo from a grid), '
                   'AppClock, each alone', 'jitter': 'zero-jitter sub-model for the on-time obligations; arbitrary '
                   'wake-up latency for the never-early/exactly-once obligations',
